@@ -275,6 +275,11 @@ def oracle(case, R):
         sc_d = max(sc_d, T * T * term_a)
 
     def compare(sol, name, kap, extra_rel=0.0):
+        # documented: "t : Time vector: np.arange(d.shape[1])*h" (one time stamp per column, exactly these)
+        if hasattr(sol, "t"):
+            t_ = np.asarray(sol.t)
+            R.check(t_.shape == (nt,) and np.array_equal(t_, h * np.arange(nt)) and sol.h == h, f"{name}_time_vector",
+                    f"h={h!r} nt={nt}: len(t)={t_.shape} t[-1]={t_[-1] if t_.size else None!r}")
         for q, ref, sc in (("d", dphys, sc_d), ("v", vphys, sc_v), ("a", aphys, sc_a)):
             got = np.asarray(getattr(sol, q))
             if got.shape != ref.shape:
@@ -314,7 +319,11 @@ def oracle(case, R):
             R.check(r <= 1000 * EPS, f"{name}_eom", f"residual={r:.2e}")
 
     static_ic = ic == "static"
-    kw = dict(rb=rb_in, rf=rf_in, order=order, pre_eig=pre_eig)
+    # "index or bool partition vector": the same sets as list / array / listed in another order / mask
+    rb_call, l1 = util.partition_form(rb_in, n, case.get("ppack", "list"), case["seed"] + 31)
+    rf_call, l2 = util.partition_form(rf_in, n, case.get("ppack", "list"), case["seed"] + 32)
+    R.label("partition:" + (l1 if l1 != "asis" else l2))
+    kw = dict(rb=rb_call, rf=rf_call, order=order, pre_eig=pre_eig)
     sols = {}
     # SolveExp2: any step size
     ts2 = ode.SolveExp2(M_in, B_in, K_in, h, **kw)
@@ -360,7 +369,7 @@ def oracle(case, R):
         y0 = np.r_[np.zeros(n) if v0_in is None else v0_in, np.zeros(n) if d0_in is None else d0_in]
         s1 = ts1.tsolve(f1, y0)
         from types import SimpleNamespace
-        compare(SimpleNamespace(d=s1.d[n:], v=s1.d[:n], a=s1.v[:n]), "SolveExp1", nrmA)
+        compare(SimpleNamespace(d=s1.d[n:], v=s1.d[:n], a=s1.v[:n], t=s1.t, h=s1.h), "SolveExp1", nrmA)
 
 
 CKAP = 1000.0
@@ -475,7 +484,8 @@ def cases(draw, form):
         fscale = 0.0
     if fscale == 0.0:
         ic = "random"
-    return {"form": form, "h": h, "modes": modes, "nt": draw(st.integers(2, 40)),
+    return {"ppack": draw(st.sampled_from(util.PART_FORMS)),
+            "form": form, "h": h, "modes": modes, "nt": draw(st.integers(2, 40)),
             "order": draw(st.sampled_from([0, 1])), "seed": draw(st.integers(0, 2 ** 31)),
             "mform": mform, "rb_given": rb_given, "perm": draw(st.booleans()),
             "bvec": draw(st.booleans()), "kvec": draw(st.booleans()), "pre_eig": pre_eig, "ic": ic,
